@@ -126,10 +126,14 @@ def _cardinality(chk, ctx, sev, pr) -> None:
     ok = False
     if it:
         ys = [n for n in ast.walk(it[0]) if isinstance(n, ast.Yield)]
-        ok = len(ys) == 1 and ast.unparse(ys[0].value).replace('"', "'") == "frozenset(Card.parse(f'{r0}{s0}{r1}{s1}'))"
-        ok = len(ys) == 1 and T.norm(ys[0].value)[:2] == ('call', 'frozenset')
-        parts = [v.value.id for n in ast.walk(ys[0].value) if isinstance(n, ast.JoinedStr) for v in n.values if isinstance(v, ast.FormattedValue) and isinstance(v.value, ast.Name)] if ys else []
-        ok = ok and parts == ['r0', 's0', 'r1', 's1']
+        loops = [n for n in ast.walk(it[0]) if isinstance(n, ast.For) and isinstance(n.target, ast.Tuple) and len(n.target.elts) == 2]
+        if len(ys) == 1 and len(loops) == 1 and T.norm(ys[0].value)[:2] == ('call', 'frozenset'):
+            parts = [v.value.id for n in ast.walk(ys[0].value) if isinstance(n, ast.JoinedStr) for v in n.values
+                     if isinstance(v, ast.FormattedValue) and isinstance(v.value, ast.Name)]
+            suits = [e.id for e in loops[0].target.elts if isinstance(e, ast.Name)]
+            consts = [v for n in ast.walk(ys[0].value) if isinstance(n, ast.JoinedStr) for v in n.values if isinstance(v, ast.Constant)]
+            ok = len(parts) == 4 and [parts[1], parts[3]] == suits and parts[0] != parts[2] and parts[0] not in suits and parts[2] not in suits and not consts \
+                and 'parse' in ast.unparse(ys[0].value)
     chk.ob('C18.cardinality', 'analysis.__parse_range:element', ok, pr.loc,
            'each element is the set of the two cards (first rank with first suit, second rank with second suit)')
     chk.floor('C18.cardinality', 7)
@@ -166,14 +170,21 @@ def _recursion(chk, ctx, pr) -> None:
     ip = next(n for n in pr.node.body if isinstance(n, ast.FunctionDef) and n.name == 'iterate_plus')
     src = T.norm
     fors = [n for n in ast.walk(ip) if isinstance(n, ast.For)]
-    ok = len(fors) == 1 and T.norm(fors[0].iter) == T.spec('rank_order[i0:i1]') and \
-        any(isinstance(n, ast.If) and T.cond(n.test) == T.spec('i0 > i1', boolean=True) for n in ast.walk(ip))
+    ok = False
+    if len(fors) == 1:
+        bnd = ctx.m.bind(T.norm(fors[0].iter), 'rank_order[lo:hi]')
+        if bnd:
+            ok = any(isinstance(n, ast.If) and T.cond(n.test) == T.cmp('Gt', ('name', bnd['lo']), ('name', bnd['hi'])) for n in ast.walk(ip))
     chk.ob('C18.recursion', 'analysis.__parse_range.iterate_plus:kicker_range', ok, pr.loc,
            'XY+ keeps the higher rank and lets the lower one range from itself up to just below the higher one')
     ii = next(n for n in pr.node.body if isinstance(n, ast.FunctionDef) and n.name == 'iterate_interval')
     fors = [n for n in ast.walk(ii) if isinstance(n, ast.For)]
-    ok = len(fors) == 1 and T.norm(fors[0].iter) == T.spec('zip(rank_order[i0:i2 + 1], rank_order[i1:i3 + 1])') and \
-        any(isinstance(n, ast.If) and T.cond(n.test) == T.spec('i1 - i0 != i3 - i2', boolean=True) and any(isinstance(s, ast.Raise) for s in n.body) for n in ast.walk(ii))
+    ok = False
+    if len(fors) == 1:
+        bnd = ctx.m.bind(T.norm(fors[0].iter), 'zip(rank_order[a0:a2 + 1], rank_order[a1:a3 + 1])')
+        if bnd:
+            gap = T.spec(f"{bnd['a1']} - {bnd['a0']} != {bnd['a3']} - {bnd['a2']}", boolean=True)
+            ok = any(isinstance(n, ast.If) and T.cond(n.test) == gap and any(isinstance(s2, ast.Raise) for s2 in n.body) for n in ast.walk(ii))
     chk.ob('C18.recursion', 'analysis.__parse_range.iterate_interval:bounds', ok, pr.loc,
            'X1Y1-X2Y2 walks both ranks in step, both ends included; bounds with different gaps are rejected')
     chk.floor('C18.recursion', 10)
@@ -185,7 +196,7 @@ def _separators(chk, ctx, mi) -> None:
         raise AnalysisError('analysis.parse_range vanished')
     want = T.spec("tuple(' '.join(raw_ranges).replace(',', ' ').replace(';', ' ').split())")
     want2 = T.spec("tuple(' '.join(raw_ranges).replace(';', ' ').replace(',', ' ').split())")
-    got = [T.norm(n.value) for n in walk_no_nested(fi.node) if isinstance(n, ast.Assign) and isinstance(n.targets[0], ast.Name) and n.targets[0].id == 'raw_ranges']
+    got = [T.norm(n.value) for n in walk_no_nested(fi.node) if isinstance(n, ast.Assign) and 'split' in ast.unparse(n.value)]
     chk.ob('C18.separators', 'analysis.parse_range', got in ([want], [want2]), fi.loc,
            'commas, semicolons and white space are interchangeable separators; empty tokens denote nothing',
            got=[T.show(g) for g in got], want=T.show(want))
@@ -220,24 +231,19 @@ def _equities(chk, ctx, mi) -> None:
     chk.ob('C18.nullable_max', fi.qualname, not bad and n_uses > 0, ctx.loc(fi, bad[0]) if bad else fi.loc,
            'hands are compared with the best hand of a type only when somebody holds a hand of that type (None == None would make everybody a winner)')
     # share formula
-    incs = [n for n in walk_no_nested(fi.node) if isinstance(n, ast.Assign) and isinstance(n.targets[0], ast.Name) and n.targets[0].id == 'increment']
     ok = False
     got = None
-    if len(incs) == 1:
-        got = T.norm(incs[0].value)
-        loop = None
-        for n in walk_no_nested(fi.node):
-            if isinstance(n, ast.For) and incs[0] in n.body:
-                loop = n
-        if loop is not None and isinstance(loop.target, ast.Name):
-            coll, el = T.norm(loop.iter), ('name', loop.target.id)
-            ok = got == ('div', T.num(1), T.mul(('call', 'len', (coll,), ()), ('call', 'sum', (el,), ())))
+    for loop in [n for n in walk_no_nested(fi.node) if isinstance(n, ast.For) and isinstance(n.target, ast.Name)]:
+        for st in loop.body:
+            if isinstance(st, ast.Assign) and isinstance(st.value, ast.BinOp) and isinstance(st.value.op, ast.Div):
+                got = T.norm(st.value)
+                coll, el = T.norm(loop.iter), ('name', loop.target.id)
+                ok = got == ('div', T.num(1), T.mul(('call', 'len', (coll,), ()), ('call', 'sum', (el,), ())))
+                # the collection holds one winner-flag list per hand type somebody qualifies for
     chk.ob('C18.shares', fi.qualname, ok, fi.loc,
            'the share of one winner for one hand type = 1 / (hand types in play x winners of that type): shares are non-negative and sum to one',
            got=T.show(got) if got else None, want='1 / (len(<types in play>) * sum(<winner flags>))')
-    # hands are evaluated with the complete board, per player
-    hands = [n for n in walk_no_nested(fi.node) if isinstance(n, ast.Assign) and isinstance(n.targets[0], ast.Name) and n.targets[0].id == 'hands']
-    ok = len(hands) == 1 and T.norm(hands[0].value) == T.spec('list(map(partial(hand_type.from_game_or_none, board_cards=board_cards), hole_cards))')
+    ok = bool(ctx.m.assigns(fi.node, 'list(map(partial(hand_type.from_game_or_none, board_cards=board_cards), hole_cards))'))
     chk.ob('C18.shares', f'{fi.qualname}:hands', ok, fi.loc, "each player's hand is made from his hole cards and the completed board, None when he has none")
     # sampling fills exactly the missing cards, each deck card at most once
     ok = any(isinstance(n, ast.Call) and isinstance(n.func, ast.Name) and n.func.id == 'sample' and any(k.arg == 'k' for k in n.keywords)
@@ -246,21 +252,27 @@ def _equities(chk, ctx, mi) -> None:
     ce = mi.functions.get('calculate_equities')
     if ce is None:
         raise AnalysisError('analysis.calculate_equities vanished')
-    cnt = [n for n in walk_no_nested(ce.node) if isinstance(n, ast.Assign) and isinstance(n.targets[0], ast.Name) and n.targets[0].id == 'counter']
     want = T.spec('Counter(chain(chain.from_iterable(selection), board_cards))')
-    ok = len(cnt) == 1 and T.norm(cnt[0].value) == want
-    flt = [n for n in walk_no_nested(ce.node) if isinstance(n, ast.If) and T.cond(n.test) == T.spec('all(map(partial(eq, 1), counter.values()))', boolean=True)]
-    chk.ob('C18.sampling', 'analysis.calculate_equities:no_card_twice', ok and len(flt) == 1, ce.loc,
+    cnt = ctx.m.assigns(ce.node, want)
+    flt = []
+    if len(cnt) == 1 and isinstance(cnt[0].targets[0], ast.Name):
+        cname_ = cnt[0].targets[0].id
+        flt = [n for n in walk_no_nested(ce.node) if isinstance(n, ast.If) and T.cond(n.test) == T.spec(f'all(map(partial(eq, 1), {cname_}.values()))', boolean=True)]
+        deck = [T.norm(n.args[0]) for n in walk_no_nested(ce.node) if isinstance(n, ast.Call) and isinstance(n.func, ast.Attribute)
+                and n.func.attr == 'append' and n.args and ctx.m.eq(T.norm(n.args[0]), f'list(set(deck) - {cname_}.keys())')]
+    else:
+        deck = []
+    chk.ob('C18.sampling', 'analysis.calculate_equities:no_card_twice', len(cnt) == 1 and len(flt) == 1, ce.loc,
            'a selection of hole cards is used only if no card appears twice among all hole cards AND the board',
-           got=stmt_text(cnt[0].value) if cnt else None, want=T.show(want))
-    deck = [T.norm(n.args[0]) for n in walk_no_nested(ce.node) if isinstance(n, ast.Call) and isinstance(n.func, ast.Attribute)
-            and n.func.attr == 'append' and ast.unparse(n.func.value) == 'deck_cards']
-    chk.ob('C18.sampling', 'analysis.calculate_equities:unused_deck', deck == [T.spec('list(set(deck) - counter.keys())')], ce.loc,
+           got=[stmt_text(c.value) for c in cnt] or 'no Counter over the hole cards of the selection chained with the board', want=T.show(want))
+    chk.ob('C18.sampling', 'analysis.calculate_equities:unused_deck', len(deck) == 1, ce.loc,
            'cards are sampled from the deck minus every card already in a hand or on the board', got=[T.show(d) for d in deck])
-    norm = [n for n in walk_no_nested(ce.node) if isinstance(n, ast.Assign) and T.norm(n.value) == T.spec('equity / sample_count')]
+    norm = ctx.m.assigns(ce.node, 'equity / sample_count')
     chk.ob('C18.shares', 'analysis.calculate_equities:mean', len(norm) == 1, ce.loc, 'an equity is the mean share over the samples')
     hs = mi.functions.get('calculate_hand_strength')
-    ok = hs is not None and any(isinstance(n, ast.Return) and T.norm(n.value) == T.spec('equities[-1]') for n in walk_no_nested(hs.node))
+    ok = hs is not None and any(isinstance(n, ast.Return) and ctx.m.eq(T.norm(n.value), 'equities[-1]') for n in walk_no_nested(hs.node)) \
+        and any(isinstance(n, ast.Call) and isinstance(n.func, ast.Attribute) and n.func.attr == 'append' and n.args
+                and T.norm(n.args[0]) == ('name', 'hole_range') for n in walk_no_nested(hs.node))
     chk.ob('C18.shares', 'analysis.calculate_hand_strength', ok, hs.loc if hs else 'pokerkit/analysis.py', 'hand strength is the equity of the last range (the hero) against unknown opponents')
 
 
@@ -268,24 +280,27 @@ def _icm(chk, ctx, mi) -> None:
     fi = mi.functions.get('calculate_icm')
     if fi is None:
         raise AnalysisError('analysis.calculate_icm vanished')
+    m = ctx.m
+    loops = m.fors(fi.node, 'permutations(range(len(chips)), len(payouts))')
     facts = {
-        'chip shares': any(T.norm(n.value) == T.spec('[chip / chip_sum for chip in chips]') for n in walk_no_nested(fi.node) if isinstance(n, ast.Assign)),
-        'finishing orders': any(isinstance(n, ast.For) and T.norm(n.iter) == T.spec('permutations(range(len(chips)), len(payouts))') for n in walk_no_nested(fi.node)),
-        'conditional probability': any(isinstance(n, ast.AugAssign) and isinstance(n.op, ast.Mult) and T.norm(n.value) == T.spec('chip_percentage / denominator') for n in walk_no_nested(fi.node)),
-        'remaining mass': any(isinstance(n, ast.AugAssign) and isinstance(n.op, ast.Sub) and ast.unparse(n.target) == 'denominator' and T.norm(n.value) == ('name', 'chip_percentage') for n in walk_no_nested(fi.node)),
-        'payout weighting': any(isinstance(n, ast.AugAssign) and isinstance(n.op, ast.Add) and T.norm(n.value) == T.spec('payout * probability')
-                                and ast.unparse(n.target) == 'icms[player_index]' for n in walk_no_nested(fi.node)),
-        'pairing': any(isinstance(n, ast.For) and T.norm(n.iter) == T.spec('zip(payouts, player_indices)') for n in walk_no_nested(fi.node)),
+        'chip shares': bool(m.assigns(fi.node, '[chip / chip_sum for chip in chips]')) and bool(m.assigns(fi.node, 'sum(chips)')),
+        'finishing orders': len(loops) == 1,
+        'payout weighting': bool(m.augs(fi.node, ast.Add, 'icms[player_index]', 'payout * probability')),
+        'pairing': bool(m.fors(fi.node, 'zip(payouts, player_indices)')),
     }
-    order_ok = False
-    for n in walk_no_nested(fi.node):
-        if isinstance(n, ast.For) and ast.unparse(n.iter) == 'player_indices':
-            srcs = [stmt_text(s) for s in n.body]
-            if 'probability *= chip_percentage / denominator' in srcs and 'denominator -= chip_percentage' in srcs:
-                order_ok = srcs.index('probability *= chip_percentage / denominator') < srcs.index('denominator -= chip_percentage')
-    facts['divide before removing the player'] = order_ok
-    resets = [n for n in walk_no_nested(fi.node) if isinstance(n, ast.For) and 'permutations' in ast.unparse(n.iter)]
-    facts['fresh probability per order'] = bool(resets) and [stmt_text(s) for s in resets[0].body[:2]] == ['probability = 1.0', 'denominator = 1.0']
+    order_ok = fresh = False
+    if loops:
+        order_var = loops[0].target.id if isinstance(loops[0].target, ast.Name) else None
+        for n in walk_no_nested(loops[0]):
+            if isinstance(n, ast.For) and isinstance(n.iter, ast.Name) and n.iter.id == order_var:
+                order_ok = m.stmt_pair_order(
+                    n.body,
+                    ('aug', 'Mult', T.spec('probability'), T.spec('share / denominator')),
+                    ('aug', 'Sub', T.spec('denominator'), T.spec('share')))
+        first = [st for st in loops[0].body if isinstance(st, ast.Assign)][:2]
+        fresh = len(first) == 2 and all(isinstance(st.value, ast.Constant) and st.value.value == 1.0 for st in first)
+    facts['conditional probability, divided before the player is removed'] = order_ok
+    facts['fresh probability per order'] = fresh
     missing = [k for k, v in facts.items() if not v]
     chk.ob('C18.icm', 'analysis.calculate_icm', not missing, fi.loc,
            'Malmuth-Harville: P(order) = prod chips_i / (chips not yet placed); each player gets payout_k * P for finishing k-th; '
@@ -295,5 +310,25 @@ def _icm(chk, ctx, mi) -> None:
 def _statistics(chk, ctx) -> None:
     st = ctx.prog.cls('Statistics')
     fi = st.methods.get('from_hand_history')
-    ok = fi is not None and any(isinstance(n, ast.keyword) and n.arg == 'payoffs' and T.norm(n.value) == T.spec('[stack - starting_stack]') for n in ast.walk(fi.node))
+    ok = False
+    if fi is not None:
+        for loop in [n for n in ast.walk(fi.node) if isinstance(n, ast.For) and 'zip' in ast.unparse(n.iter)]:
+            names = [x.id for x in ast.walk(loop.target) if isinstance(x, ast.Name)]
+            z = T.norm(loop.iter)
+            for k in [n for n in ast.walk(loop) if isinstance(n, ast.keyword) and n.arg == 'payoffs']:
+                v = T.norm(k.value)
+                # [finishing - starting] where starting iterates hh.starting_stacks and finishing the finishing stacks
+                if v[0] == 'list' and len(v[1]) == 1 and v[1][0][0] == 'lin':
+                    d = dict(v[1][0][1])
+                    pos = [a for a, c in d.items() if c == 1]
+                    neg_ = [a for a, c in d.items() if c == -1]
+                    if len(pos) == 1 and len(neg_) == 1 and pos[0][0] == 'name' and neg_[0][0] == 'name':
+                        zi = z[2] if z[0] == 'call' and z[1] == 'zip' else (z[2][0][2] if z[0] == 'call' and z[1] == 'enumerate' else ())
+                        tgt = [x.id for x in ast.walk(loop.target) if isinstance(x, ast.Name)]
+                        flat = [x for x in tgt]
+                        try:
+                            si = flat.index(neg_[0][1]) - (1 if z[1] == 'enumerate' else 0)
+                            ok = 'starting_stacks' in T.show(zi[si])
+                        except (ValueError, IndexError):
+                            ok = False
     chk.ob('C18.statistics', 'Statistics.from_hand_history', ok, fi.loc if fi else st.loc, 'a recorded payoff is finishing stack - starting stack')
